@@ -171,7 +171,16 @@ func GenConfig(prop string, g *Gen, tier string) Config {
 			c.Layers = genLayers(g, c.U)
 		}
 	case "C05":
-		if g.Intn(10) == 0 {
+		if g.Intn(40) == 0 {
+			// the documented "registered types" configuration with the default compact format
+			// (as in the repository's TestCustomMarshal): a known finding, kept at a low rate
+			c.NoLike = true
+			c.Format = FmtBinary
+			c.Marshaler = []string{"gob", "json"}[g.Intn(2)]
+			c.KeyD = "string"
+			c.ValD = "string"
+			c.CmpScale = 0
+		} else if g.Intn(10) == 0 {
 			// registered types without example types: v1marshaler + JSON round-trips strings
 			c.NoLike = true
 			c.Marshaler = "json"
